@@ -59,3 +59,13 @@ claim('C06', 'other',
       'sentinel agreement of uncompressed_payload_length over {-1, 0, >0} at every selection, CRC-comparison-before-use dataflow, chunk step/slice '
       'agreement, and must-rewind on every incomplete-data path of the segment buffer',
       'abstract interpretation of bit-field expressions + finite sentinel domain + CFG path rules', _TB, 'DESIGN.md section 5 C06')
+
+claim('C09', 'other',
+      'static analysis: lock discipline of in_flight / get_request_id on the same receiver, capacity-test dominance inside the lock region, closed writer '
+      'sets of the request table and id pool, exactly-one id release per response by CFG dataflow, orphan pairing across timeout and late answer, '
+      'stream-id width against the header struct. Decides the lock/pairing conditions that make every interleaving safe, not the interleavings',
+      'lexical lock regions + CFG dataflow with branch facts + who-may-write tables', _TB, 'DESIGN.md section 5 C09')
+claim('C10', 'other',
+      'static analysis: test-and-set latches of defunct()/close() in the base connection and all six reactors, must-call chain after the latch, '
+      'swap-and-drain shape of error_all_requests, refusal dominance in send_msg, defunct_on_error coverage, decode-failure arm',
+      'sibling cross-check over six reactors + CFG must-call dataflow + swap-and-drain reaching definitions', _TB, 'DESIGN.md section 5 C10')
